@@ -19,7 +19,7 @@ Token level, programs of any size (the models are `QV.Shared.Print`, `QV.Shared.
 * `C04_debug_total`: the debug serializer is a total function (by construction of the model: `write(f, true)`
   never takes an error branch) and AGREES with the strict serializer whenever that succeeds.
 
-## Proved for the kinds of `apiKind` (29 kinds) — `C04_roundtrip_api`, see below
+## Proved for the kinds of `apiKind` (31 kinds) — `C04_roundtrip_api`, see below
 
 ## Proved for the kinds of `plainKind` (23 kinds without expressions)
 
@@ -100,7 +100,8 @@ theorem C04_roundtrip_partial (F : NumFmt) (is : List Instruction)
 
 /-- **C04, proved part with expressions.**  Well-formed, placeholder-free instructions of the kinds `apiKind`
 (the plain kinds, gate applications with arbitrary expression parameters and modifiers, SET-FREQUENCY, SET-PHASE,
-SET-SCALE, SHIFT-FREQUENCY, SHIFT-PHASE), NumTok hypothesis on their literals: the program serializes, and the
+SET-SCALE, SHIFT-FREQUENCY, SHIFT-PHASE, DELAY with any duration with and without frame names, RAW-CAPTURE into
+a region not named `i`), NumTok hypothesis on their literals: the program serializes, and the
 tokens parse back to the listing in which every expression `e` is replaced by its normal form `norm e`
 (`normInstr`) — which builds the program whose containers are the images of the original containers.
 `norm e` has the same value as `e` under every assignment (`C04_norm_value`): the reparsed program is equal to
@@ -143,7 +144,12 @@ theorem C04_norm_value {K : Type} [Scalar K] (den : CBits → K) (L : QV.ExprRou
 example : ∃ ts, printProgramTokens stdFmt (build
       [.gate ⟨"RX", [.pre .minus (.pre .minus .pi), .number ⟨0xBFF8000000000000, 0⟩,
           .number ⟨0x3FF0000000000000, 0xC000000000000000⟩], [.fixed 0, .variable "q"], [.dagger]⟩,
-       .setPhase ⟨⟨"rf", [.fixed 0]⟩, .pre .plus (.var "theta")⟩]).listing = .ok ts :=
+       .setPhase ⟨⟨"rf", [.fixed 0]⟩, .pre .plus (.var "theta")⟩,
+       .delay ⟨.var "t", [], [.fixed 0]⟩,
+       .delay ⟨.address ⟨"theta", 0⟩, [], [.fixed 0, .fixed 1]⟩,
+       .delay ⟨.call .sin (.var "t"), [], [.fixed 0]⟩,
+       .delay ⟨.number ⟨0x3FF0000000000000, 0xC000000000000000⟩, ["a\"b"], []⟩,
+       .rawCapture ⟨false, ⟨"ro", [.fixed 0]⟩, .number ⟨0x4000000000000000, 0⟩, ⟨"iq", 0⟩⟩]).listing = .ok ts :=
   let ⟨ts, h, _⟩ := C04_roundtrip_api stdFmt _ (by decide) (by decide) (by decide) (by decide)
   ⟨ts, h⟩
 
